@@ -15,6 +15,8 @@ def _tag_of(case):
 
 def classify_modifier(case):
     """Name the input class of a modifier case on which the implementation's output fails the C18 predicate."""
+    if case.get("concurrent"):
+        return "modifier-output-wrong-under-concurrent-use"
     obs = case.get("_obs", {})
     lines = case.get("header", {}).get("Via") or []
     tag = _tag_of(case)
